@@ -31,8 +31,8 @@ CLAIMED = {
         note="Trusted: Coq kernel + vm_compute; the hand-written Model/Query.v is tied to interface.region / "
              "helpers.make_query only by the correspondence (differential, boundary-pool generators); sqlite semantics "
              "(NULL comparisons, affinity) are modelled. Domain: start<=end rows with both or neither coordinate, "
-             "non-empty featuretype collections, region() with at least one of seqid/start/end. String-form parsing "
-             "is modelled (split/int) and correspondence-checked, not proved equal to the tuple form.",
+             "non-empty featuretype collections, region() with at least one of seqid/start/end. The 'seqid:start-end' string "
+             "forms of region() and limit= are proved equal to the tuple forms (seqid without ':', non-negative bounds).",
         technique="Coq proof (model = declarative filter) + differential correspondence on real databases",
         design="4 (C06)"),
     "C01": dict(
@@ -166,9 +166,9 @@ CLAIMED = {
              "alphabet x 5 strategies plus 1.5k random sequences x force_merge_fields subsets, comparing features (values as "
              "sets for merge), relations, duplicates and counters inside Coq.",
         note="Trusted: Coq kernel + vm_compute; Model/Import.v hand-written, tied by the correspondence. Python's list(set(v)) "
-             "order is unspecified: the model keeps merged values sorted and the comparison is on sets. The invariant 'at most "
-             "one merge candidate agrees on the compared columns' is not yet a theorem: with several agreeing candidates the "
-             "model follows the code (last one is updated) and the correspondence decides. GTF importer dispatch is the same "
+             "order is unspecified: the model keeps merged values sorted and the comparison is on sets. That at most one merge "
+             "candidate agrees with a newcomer on the compared columns is a theorem (C05_merge_candidates_distinct: invariant of "
+             "every import under 'merge' from empty tables), so Python's set order cannot matter there. GTF importer dispatch is the same "
              "code shape and is exercised by C03's correspondence. update() reuses the importer (C10).",
         technique="Coq proof (per-strategy state-transition theorems, attribute-union theorem) + exhaustive small-scope differential correspondence",
         design="4 (C05)"),
@@ -194,7 +194,7 @@ CLAIMED = {
         text="The property is a refinement claim; the reference model is the machine of Model/Machine.v (state = committed "
              "file content incl. the autoincrements table, the open object's live counters, the .bak content; operations "
              "update(features, strategy, checklines, failure position of the source, make_backup), delete(ids), add_relation, "
-             "close+reopen), built on the importer model already proved for C02/C04/C05. Coq theorems (Properties/C10.v, 12 "
+             "close+reopen), built on the importer model already proved for C02/C04/C05. Coq theorems (Properties/C10.v, 14 "
              "statements, closed under the global context, for every state / operation / history and any id_spec callable): "
              "delete removes exactly the named rows and exactly the relations mentioning them, keeps the order of the rest, "
              "the duplicates table and all counters; update with no features changes nothing; with make_backup the .bak is "
@@ -202,16 +202,17 @@ CLAIMED = {
              "source may fail - and every delete, and is left alone otherwise; a failing source or a failing populate leaves "
              "the file untouched; reopen preserves the content and reloads the persisted counters; primary keys stay unique "
              "through every history (induction over the operation list: a generated key never equals a stored one); the "
-             "first id-less feature of an update is stored under <featuretype>_(live counter+1). Tied to interface.py/"
+             "first id-less feature of an update is stored under <featuretype>_(live counter+1); over every history the persisted "
+             "counters only grow and never run ahead of the live ones (numbering continues across updates and reopenings). Tied to interface.py/"
              "create.py by every history up to length 3 (thorough 4) over a 12-operation alphabet plus 500 random "
              "histories up to length 8, on file databases, comparing after EVERY step the four tables (fresh connection), "
-             "the in-memory counters, the .bak content and the outcome class inside Coq.",
+             "the in-memory counters, the .bak content, the outcome class and the long-lived object's own view (db[id] for a "
+             "pool of ids, count_features_of_type per type, ids iterated) inside Coq.",
         note="Trusted: Coq kernel + vm_compute; Model/Machine.v and Model/Import.v hand-written, tied by the correspondence; "
              "sqlite transaction behaviour (an exception during update rolls back the creator's uncommitted connection once it "
              "is garbage collected) is modelled as 'disk unchanged' and checked by reading the file through a fresh "
-             "connection after gc. GFF3-dialect databases only; add_relation without parent_func/child_func; in-memory "
-             "counters after a failed update follow the code (advanced, not persisted). The monotonicity of the persisted "
-             "counters over whole histories is decided by the correspondence, not yet a theorem. Finding F20 (mid-import "
+             "connection after gc. GFF3-dialect databases only; add_relation with an optional re-typing child_func; in-memory "
+             "counters after a failed update follow the code (advanced, not persisted). Finding F20 (mid-import "
              "commit in _add_duplicate made failed 'merge' updates half-applied) was found by this check and fixed in /repo.",
         technique="Coq proof of the machine laws (per-step characterisations, invariants by induction over histories) + exhaustive small-scope differential correspondence over operation histories (the refinement itself)",
         design="4 (C10)"),
